@@ -154,14 +154,10 @@ Definition brel_VCCS (c : sctx K) (v ib : Z -> K) (q : Z) : K := f0.
 (* CCCS (controlling element must be a voltage source): draws F i_ctrl at + *)
 Definition drawn_CCCS (c : sctx K) (v ib : Z -> K) r := thru (p0 c) (p1 c) r (fmul (par c pArg1) (ib (bctrl c))).
 Definition brel_CCCS (c : sctx K) (v ib : Z -> K) (q : Z) : K := f0.
-(* CCVS: v+ - v- = H i_ctrl.  When the controlling element is not a voltage
-   source the code additionally inserts a 0 V branch across the controlling
-   element's nodes whose current is i_ctrl (as coded; recorded in DESIGN). *)
-Definition drawn_CCVS (c : sctx K) (v ib : Z -> K) r := fadd (thru (p0 c) (p1 c) r (ib (bown c)))
-   (if ctrl_is_vsrc c then f0 else thru (c0 c) (c1 c) r (ib (bctrl c))).
-Definition brel_CCVS (c : sctx K) (v ib : Z -> K) q := fadd
-   (fmul (ind (bown c) q) (fsub (dV01 c v) (fmul (par c pArg1) (ib (bctrl c)))))
-   (if ctrl_is_vsrc c then f0 else fmul (ind (bctrl c) q) (fsub (vv v (c0 c)) (vv v (c1 c)))).
+(* CCVS (controlling element must be a voltage source, like CCCS): v+ - v- = H i_ctrl *)
+Definition drawn_CCVS (c : sctx K) (v ib : Z -> K) r := thru (p0 c) (p1 c) r (ib (bown c)).
+Definition brel_CCVS (c : sctx K) (v ib : Z -> K) q :=
+   fmul (ind (bown c) q) (fsub (dV01 c v) (fmul (par c pArg1) (ib (bctrl c)))).
 (* K: adds -(ZM c) i_L2 to L1's relation and -(ZM c) i_L1 to L2's; nothing at dc *)
 Definition ZM (c : sctx K) : K := if akind_eqb (kind c) KS || akind_eqb (kind c) KIvp || akind_eqb (kind c) KLaplace || akind_eqb (kind c) KTransient
                      then par c pZM0 else par c pZM1.
